@@ -2,10 +2,14 @@
 // Modes (argv[1]):
 //   enum            exhaustive sweeps over all SepPair states (2x2x3x3 kinds x 4x4 gaps {-2,-0.0,+0.0,2}):
 //                   sections transform1 (7 transforms), transform2 (49 pairs), addsep (192 requests), cardinal
-//   ops  <file>     interpreter of SepMatrix op sequences (addSep, addFixedRelativeSep, getCardinalDir, are?Aligned,
-//                   transform, dump) on a graph with 3 nodes
+//   ops  <file>     interpreter of SepMatrix op sequences on a graph with 3 nodes: EVERY public mutator overload (addSep,
+//                   addFixedRelativeSep 4-arg and position-based 2-arg, setCardinalOP, hAlign, vAlign, alignByEquatedCoord,
+//                   free, clear, setSepPair, transform, transformClosedSubset, transformOpenSubset, removeNode(s),
+//                   roundGapsUpward, setExtraBdryGap, setCorrespondingConstraints), queries (getCardinalDir, are?Aligned),
+//                   M = move a node, Q = which records the present placement satisfies, D = dump
 //   gen  <file>     generateSeparationConstraints on given pair + placement (+ transform applied by the real code)
-//   tglf <file>     Graph::writeTglf(true) -> buildGraphFromTglf: canonical dump of both graphs
+//   tglf <file>     Graph::writeTglf(useExternalIds) -> buildGraphFromTglf: canonical dump of both graphs (nodes with and
+//                   without external ids, controlled internal ids)
 // Numbers cross the boundary as integers scaled by 4 (all inputs are multiples of 0.25); gaps as sign char + |g|*4.
 // The OCaml driver extract/c18_driver.ml produces the same text from the extracted Coq model.
 #include <cstddef>
@@ -129,6 +133,16 @@ static std::string dumpMatrix(SepMatrix &m, const std::map<id_type, int> &ix)
     return ss.str();
 }
 
+// node sizes of the three nodes of mode ops (scaled by 4): fixed, the model driver uses the same table
+static const long OPS_W[3] = {8, 16, 24}, OPS_H[3] = {24, 16, 8};
+
+static std::set<id_type> maskIds(const std::vector<Node_SP> &nodes, int mask)
+{
+    std::set<id_type> s;
+    for (int i = 0; i < 3; i++) if (mask & (1 << i)) s.insert(nodes[i]->id());
+    return s;
+}
+
 static int modeOps(const char *file)
 {
     std::ifstream in(file);
@@ -136,15 +150,21 @@ static int modeOps(const char *file)
     Graph *G = nullptr;
     std::vector<Node_SP> nodes;
     std::map<id_type, int> ix;
+    static const CardinalDir CDS[4] = {CardinalDir::EAST, CardinalDir::SOUTH, CardinalDir::WEST, CardinalDir::NORTH};
     while (std::getline(in, line)) {
         std::istringstream is(line);
         std::string op; is >> op;
         if (op == "N") {
             delete G; G = new Graph(); nodes.clear(); ix.clear();
-            for (int i = 0; i < 3; i++) { Node_SP u = Node::allocate(); G->addNode(u); nodes.push_back(u); ix[u->id()] = i; }
+            for (int i = 0; i < 3; i++) {
+                Node_SP u = Node::allocate(); u->setDims(OPS_W[i] / 4.0, OPS_H[i] / 4.0);
+                G->addNode(u); nodes.push_back(u); ix[u->id()] = i;
+            }
             if (!(nodes[0]->id() < nodes[1]->id() && nodes[1]->id() < nodes[2]->id())) { puts("IDORDER"); return 3; }
         } else if (op == "X") {
             long e; is >> e; G->getSepMatrix().setExtraBdryGap(e / 4.0);
+        } else if (op == "M") {
+            int i; long x, y; is >> i >> x >> y; nodes[i]->setCentre(x / 4.0, y / 4.0);
         } else if (op == "A") {
             int i, j, gt, sd, st; std::string g; is >> i >> j >> gt >> sd >> st >> g;
             try { G->getSepMatrix().addSep(nodes[i]->id(), nodes[j]->id(), GTS[gt], DIRS[sd], STS[st], parsegap(g)); }
@@ -153,6 +173,35 @@ static int modeOps(const char *file)
             int i, j; std::string dx, dy; is >> i >> j >> dx >> dy;
             try { G->getSepMatrix().addFixedRelativeSep(nodes[i]->id(), nodes[j]->id(), parsegap(dx), parsegap(dy)); }
             catch (std::runtime_error &) { puts("F!"); }
+        } else if (op == "P") {             // the position-based overload
+            int i, j; is >> i >> j;
+            try { G->getSepMatrix().addFixedRelativeSep(nodes[i]->id(), nodes[j]->id()); }
+            catch (std::runtime_error &) { puts("P!"); }
+        } else if (op == "O") {
+            int i, j, c; is >> i >> j >> c;
+            try { G->getSepMatrix().setCardinalOP(nodes[i]->id(), nodes[j]->id(), CDS[c]); }
+            catch (std::runtime_error &) { puts("O!"); }
+        } else if (op == "h" || op == "v") {
+            int i, j; is >> i >> j;
+            try { if (op == "h") G->getSepMatrix().hAlign(nodes[i]->id(), nodes[j]->id());
+                  else G->getSepMatrix().vAlign(nodes[i]->id(), nodes[j]->id()); }
+            catch (std::runtime_error &) { printf("%s!\n", op.c_str()); }
+        } else if (op == "E") {
+            int i, j, d; is >> i >> j >> d;
+            try { G->getSepMatrix().alignByEquatedCoord(nodes[i]->id(), nodes[j]->id(), d ? vpsc::YDIM : vpsc::XDIM); }
+            catch (std::runtime_error &) { puts("E!"); }
+        } else if (op == "R") {
+            int i, j; is >> i >> j; G->getSepMatrix().free(nodes[i]->id(), nodes[j]->id());
+        } else if (op == "Z") {
+            G->getSepMatrix().clear();
+        } else if (op == "S") {
+            int i, j, xgt, ygt, xst, yst; std::string xg, yg; is >> i >> j >> xgt >> ygt >> xst >> yst >> xg >> yg;
+            SepPair_SP sp = std::make_shared<SepPair>();
+            sp->src = nodes[i]->id(); sp->tgt = nodes[j]->id();
+            sp->xgt = GTS[xgt]; sp->ygt = GTS[ygt]; sp->xst = STS[xst]; sp->yst = STS[yst];
+            sp->xgap = parsegap(xg); sp->ygap = parsegap(yg);
+            try { G->getSepMatrix().setSepPair(nodes[i]->id(), nodes[j]->id(), sp); }
+            catch (std::runtime_error &) { puts("S!"); }
         } else if (op == "C") {
             int i, j; is >> i >> j;
             char c;
@@ -165,8 +214,56 @@ static int modeOps(const char *file)
             int i, j; is >> i >> j; printf("V %d\n", (int)G->getSepMatrix().areVAligned(nodes[i]->id(), nodes[j]->id()));
         } else if (op == "T") {
             int t; is >> t; G->getSepMatrix().transform(TFS[t]);
+        } else if (op == "TC" || op == "TO") {
+            int t, mask; is >> t >> mask;
+            std::set<id_type> ids = maskIds(nodes, mask);
+            if (op == "TC") G->getSepMatrix().transformClosedSubset(TFS[t], ids);
+            else G->getSepMatrix().transformOpenSubset(TFS[t], ids);
+        } else if (op == "RN") {
+            int i; is >> i; G->getSepMatrix().removeNode(nodes[i]->id());
+        } else if (op == "RM") {
+            int mask; is >> mask;
+            NodesById nb; for (int i = 0; i < 3; i++) if (mask & (1 << i)) nb.insert({nodes[i]->id(), nodes[i]});
+            G->getSepMatrix().removeNodes(nb);
+        } else if (op == "U") {
+            G->getSepMatrix().roundGapsUpward();
+        } else if (op == "K") {
+            // a second graph holding the nodes of the mask (a Graph may share Node objects), empty matrix
+            int mask; is >> mask;
+            Graph H2;
+            for (int i = 0; i < 3; i++) if (mask & (1 << i)) H2.addNode(nodes[i], false);
+            G->getSepMatrix().setCorrespondingConstraints(H2.getSepMatrix());
+            std::string d = dumpMatrix(H2.getSepMatrix(), ix); d[0] = 'K';
+            puts(d.c_str());
+        } else if (op == "Q") {
+            // which stored records does the present placement satisfy, by the really generated vpsc constraints
+            SepMatrix &m = G->getSepMatrix();
+            ColaGraphRep &cgr = G->updateColaGraphRep();
+            std::map<std::pair<int,int>, int> sat;
+            for (auto &p : m.m_sparseLookup) for (auto &q : p.second) if (q.second) sat[{ix.at(p.first), ix.at(q.first)}] = 1;
+            for (int d = 0; d < 2; d++) {
+                vpsc::Variables vs; vpsc::Constraints cs; vpsc::Rectangles bbs;
+                std::vector<double> pos(3, 0.0);
+                for (int i = 0; i < 3; i++) { Avoid::Point c = nodes[i]->getCentre(); pos[cgr.id2ix.at(nodes[i]->id())] = d == 0 ? c.x : c.y; }
+                for (int i = 0; i < 3; i++) vs.push_back(new vpsc::Variable(i, pos[i]));
+                m.generateSeparationConstraints(d == 0 ? vpsc::XDIM : vpsc::YDIM, vs, cs, bbs);
+                for (auto c : cs) {
+                    double lhs = pos[c->left->id] + c->gap, rhs = pos[c->right->id];
+                    bool ok = c->equality ? (lhs == rhs) : (lhs <= rhs);
+                    int a = -1, b = -1;
+                    for (int i = 0; i < 3; i++) { if ((int)cgr.id2ix.at(nodes[i]->id()) == c->left->id) a = i; if ((int)cgr.id2ix.at(nodes[i]->id()) == c->right->id) b = i; }
+                    if (!ok) sat[{std::min(a, b), std::max(a, b)}] = 0;
+                }
+                for (auto c : cs) delete c;
+                for (auto x : vs) delete x;
+            }
+            std::ostringstream ss; ss << "Q";
+            for (auto &kv : sat) ss << " | " << kv.first.first << " " << kv.first.second << " " << kv.second;
+            puts(ss.str().c_str());
         } else if (op == "D") {
-            puts(dumpMatrix(G->getSepMatrix(), ix).c_str());
+            std::string d = dumpMatrix(G->getSepMatrix(), ix);
+            char b[48]; snprintf(b, sizeof b, " | e %ld", q4(G->getSepMatrix().getExtraBdryGap()));
+            puts((d + b).c_str());
         }
     }
     delete G;
@@ -247,23 +344,26 @@ static int modeGen(const char *file)
     return 0;
 }
 
-// canonical dump: nodes by external id, edges as (ext src, ext tgt, route), pairs by (ext lo, ext hi)
+// canonical dump: nodes by rank in internal-id order (= file order after reading back) with internal and external id,
+// edges as (rank src, rank tgt, route), pairs by (rank lo, rank hi)
 static void dumpGraph(const char *tag, Graph &G)
 {
-    std::map<id_type, int> ext;
+    std::map<id_type, int> rank;
     std::vector<std::string> lines;
-    id_type prev = 0; bool first = true, mono = true; int prevExt = -1;
+    int r = 0;
     for (auto &p : G.getNodeLookup()) {
         int e = p.second->getExternalId();
-        ext[p.first] = e;
+        rank[p.first] = r;
         Avoid::Point c = p.second->getCentre(); dimensions d = p.second->getDimensions();
-        char b[160]; snprintf(b, sizeof b, "%s node %d %ld %ld %ld %ld", tag, e, q4(c.x), q4(c.y), q4(d.first), q4(d.second));
+        char b[200]; snprintf(b, sizeof b, "%s node %d %ld %ld %ld %ld id %u ext %d", tag, r, q4(c.x), q4(c.y), q4(d.first), q4(d.second),
+                              (unsigned) p.first, e);
         lines.push_back(b);
+        r++;
     }
     std::vector<std::string> el;
     for (auto &p : G.getEdgeLookup()) {
         auto ends = p.second->getEndIds();
-        std::ostringstream ss; ss << tag << " edge " << ext[ends.first] << " " << ext[ends.second];
+        std::ostringstream ss; ss << tag << " edge " << rank[ends.first] << " " << rank[ends.second];
         for (auto pt : p.second->getRoute()) ss << " " << q4(pt.x) << " " << q4(pt.y);
         el.push_back(ss.str());
     }
@@ -273,8 +373,7 @@ static void dumpGraph(const char *tag, Graph &G)
     std::vector<std::string> pl;
     for (auto &p : m.m_sparseLookup) for (auto &q : p.second) {
         if (!q.second) continue;
-        // report relative to external ids: src ext, tgt ext (the pair is directed src -> tgt)
-        std::ostringstream ss; ss << tag << " pair " << ext[p.first] << " " << ext[q.first] << " " << pairstr(*q.second);
+        std::ostringstream ss; ss << tag << " pair " << rank[p.first] << " " << rank[q.first] << " " << pairstr(*q.second);
         pl.push_back(ss.str());
     }
     std::sort(pl.begin(), pl.end());
@@ -283,47 +382,76 @@ static void dumpGraph(const char *tag, Graph &G)
     printf("%s extra %ld\n", tag, q4(m.getExtraBdryGap()));
 }
 
+// input:  G <useExternalIds 0|1> <first internal id>     start a graph; Node::nextID is set so that internal ids are known
+//         n <ext | -1> cx cy w h                         node (-1: no external id)
+//         s <k>                                          skip k internal ids
+//         e <i> <j> route...                             edge between the i-th and j-th node of this graph
+//         x <extra>                                      setExtraBdryGap
+//         c <i> <j> gt dir st gap                        addSep between the i-th and j-th node
+// every graph is processed in a fork()ed child: a crash of the reader on a malformed text cannot take the run down
+static void tglfCase(Graph *G, bool useExt)
+{
+    std::string s;
+    bool threw = false;
+    try { s = G->writeTglf(useExt); } catch (std::runtime_error &e) { threw = true; printf("WRITE-THROWS %s\n", e.what()); }
+    dumpGraph("A", *G);
+    if (!threw) {
+        std::istringstream ts(s); std::string l;
+        while (std::getline(ts, l)) printf("T %s\n", l.c_str());
+        fflush(stdout);
+        try {
+            Graph_SP H = buildGraphFromTglf(s);
+            dumpGraph("B", *H);
+            // idempotence of the text: writing the re-read graph (by its external ids) gives the same text
+            std::string s2 = H->writeTglf(true);
+            printf("TEXT %s\n", s == s2 ? "same" : "differs");
+        } catch (std::exception &e) { printf("READ-THROWS %s\n", e.what()); }
+    }
+    fflush(stdout);
+}
+
+#include <sys/wait.h>
+#include <unistd.h>
 static int modeTglf(const char *file)
 {
     std::ifstream in(file);
     std::string line;
     Graph *G = nullptr;
-    std::map<int, Node_SP> byExt;
+    std::vector<Node_SP> byIx;
+    bool useExt = true;
     int caseNo = 0;
     auto finish = [&]() {
         if (!G) return;
-        printf("## case %d\n", caseNo++);
-        std::string s;
-        bool threw = false;
-        try { s = G->writeTglf(true); } catch (std::runtime_error &e) { threw = true; printf("WRITE-THROWS %s\n", e.what()); }
-        dumpGraph("A", *G);
-        if (!threw) {
-            Graph_SP H = buildGraphFromTglf(s);
-            dumpGraph("B", *H);
-            // idempotence of the text: writing the re-read graph gives the same text
-            std::string s2 = H->writeTglf(true);
-            printf("TEXT %s\n", s == s2 ? "same" : "differs");
-            std::istringstream ts(s); std::string l;
-            while (std::getline(ts, l)) printf("T %s\n", l.c_str());
-        }
-        delete G; G = nullptr; byExt.clear();
+        printf("## case %d\n", caseNo);
+        fflush(stdout);
+        pid_t pid = fork();
+        if (pid == 0) { tglfCase(G, useExt); _exit(0); }
+        int st = 0; waitpid(pid, &st, 0);
+        if (!(WIFEXITED(st) && WEXITSTATUS(st) == 0)) printf("CRASH %d\n", st);
+        caseNo++;
+        delete G; G = nullptr; byIx.clear();
     };
     while (std::getline(in, line)) {
         std::istringstream is(line);
         std::string op; is >> op;
-        if (op == "G") { finish(); G = new Graph(); }
+        if (op == "G") {
+            finish(); G = new Graph();
+            int ue = 1; long base = -1; is >> ue >> base; useExt = ue != 0;
+            if (base >= 0) Node::nextID = (id_type) base;
+        }
         else if (op == "n") {
             int e; long cx, cy, w, h; is >> e >> cx >> cy >> w >> h;
-            Node_SP u = Node::allocate(); u->setExternalId(e); u->setCentre(cx / 4.0, cy / 4.0); u->setDims(w / 4.0, h / 4.0);
-            G->addNode(u); byExt[e] = u;
-        } else if (op == "e") {
-            int a, b; is >> a >> b; Edge_SP ed = Edge::allocate(byExt[a], byExt[b]);
+            Node_SP u = Node::allocate(); if (e >= 0) u->setExternalId(e); u->setCentre(cx / 4.0, cy / 4.0); u->setDims(w / 4.0, h / 4.0);
+            G->addNode(u); byIx.push_back(u);
+        } else if (op == "s") { long k; is >> k; Node::nextID += (id_type) k; }
+        else if (op == "e") {
+            int a, b; is >> a >> b; Edge_SP ed = Edge::allocate(byIx[a], byIx[b]);
             long x, y; while (is >> x >> y) ed->addRoutePoint(x / 4.0, y / 4.0);
             G->addEdge(ed);
         } else if (op == "x") { long e; is >> e; G->getSepMatrix().setExtraBdryGap(e / 4.0); }
         else if (op == "c") {
             int i, j, gt, sd, st; std::string g; is >> i >> j >> gt >> sd >> st >> g;
-            G->getSepMatrix().addSep(byExt[i]->id(), byExt[j]->id(), GTS[gt], DIRS[sd], STS[st], parsegap(g));
+            G->getSepMatrix().addSep(byIx[i]->id(), byIx[j]->id(), GTS[gt], DIRS[sd], STS[st], parsegap(g));
         }
     }
     finish();
